@@ -565,7 +565,8 @@ is_default_constructible(CPPVisibility min_vis) const {
   for (di = _derivation.begin(); di != _derivation.end(); ++di) {
     CPPStructType *base = (*di)._base->as_struct_type();
     if (base != nullptr) {
-      if (!base->is_default_constructible(V_protected)) {
+      if (!base->is_default_constructible(V_protected) ||
+          !base->is_destructible(V_protected)) {
         return false;
       }
     }
@@ -580,6 +581,11 @@ is_default_constructible(CPPVisibility min_vis) const {
     if (instance->_storage_class & CPPInstance::SC_static) {
       // Static members don't count.
       continue;
+    }
+
+    if (!instance->_type->is_destructible()) {
+      // A member that cannot be destroyed deletes the implicit constructor.
+      return false;
     }
 
     if (instance->_initializer != nullptr) {
@@ -646,7 +652,8 @@ is_copy_constructible(CPPVisibility min_vis) const {
   for (di = _derivation.begin(); di != _derivation.end(); ++di) {
     CPPStructType *base = (*di)._base->as_struct_type();
     if (base != nullptr) {
-      if (!base->is_copy_constructible(V_protected)) {
+      if (!base->is_copy_constructible(V_protected) ||
+          !base->is_destructible(V_protected)) {
         return false;
       }
     }
@@ -663,7 +670,8 @@ is_copy_constructible(CPPVisibility min_vis) const {
       continue;
     }
 
-    if (!instance->_type->is_copy_constructible()) {
+    if (!instance->_type->is_copy_constructible() ||
+        !instance->_type->is_destructible()) {
       return false;
     }
   }
